@@ -53,17 +53,33 @@ CopyBetween(s, t, u) ==      \* s: source (read only), t: target; returns [s |->
            c == Ite(g.s, g.r, q.r, p.r)
        IN [s |-> c.s, r |-> IF u < 0 THEN -c.r ELSE c.r]
 
-(* ---- pickle load: the file is the source's sub-table; rebuild bottom-up ---- *)
-RECURSIVE LoadNode(_, _, _)
-LoadNode(file, t, u) ==      \* file: [order, succ]; like CopyBetween but reading the FILE
-  IF Abs(u) = 1 THEN [s |-> t, r |-> u]
+(* ---- pickle load (BDD._load_pickle / _load): the file is the source's
+   sub-table.  The OUTER loop visits every node of the file in the order of the
+   pickled dict -- built from the set `descendants(roots)`, i.e. increasing
+   node numbers for the small integers concerned -- and loads it unless the
+   memo `umap` has it; `_load` recurses low first, then high, and rebuilds the
+   node with ite on the mapped variable.  The memo test is `u in umap` on the
+   SIGNED reference, so only a regular reference hits it. ---- *)
+RECURSIVE LoadRec(_, _, _, _)
+LoadRec(file, t, umap, u) ==
+  IF Abs(u) = 1 THEN [s |-> t, umap |-> umap, r |-> u]
+  ELSE IF u \in DOMAIN umap THEN [s |-> t, umap |-> umap, r |-> umap[u]]
   ELSE LET nd == file.succ[Abs(u)]
-           p == LoadNode(file, t, nd[2])
-           q == LoadNode(file, p.s, nd[3])
+           p == LoadRec(file, t, umap, nd[2])
+           q == LoadRec(file, p.s, p.umap, nd[3])
            nm == file.order[nd[1] + 1]
            g == FindOrAdd(q.s, LevelOf(q.s, nm), -1, 1)
            c == Ite(g.s, g.r, q.r, p.r)
-       IN [s |-> c.s, r |-> IF u < 0 THEN -c.r ELSE c.r]
+       IN [s |-> c.s, umap |-> (Abs(u) :> c.r) @@ q.umap, r |-> IF u < 0 THEN -c.r ELSE c.r]
+RECURSIVE LoadAll(_, _, _, _)
+LoadAll(file, t, umap, todo) ==
+  IF todo = {} THEN [s |-> t, umap |-> umap]
+  ELSE LET u == CHOOSE x \in todo : \A y \in todo : x <= y IN
+       IF u \in DOMAIN umap THEN LoadAll(file, t, umap, todo \ {u})
+       ELSE LET x == LoadRec(file, t, umap, u) IN LoadAll(file, x.s, x.umap, todo \ {u})
+LoadNode(file, t, u) ==
+  LET all == LoadAll(file, t, (1 :> 1), DOMAIN file.succ \ {1})
+  IN [s |-> all.s, r |-> IF u < 0 THEN -all.umap[-u] ELSE all.umap[u]]
 FileOf(s, roots) == [order |-> s.order, succ |-> Restrict(s.succ, Reach(s, roots \cup {1})), roots |-> roots]
 PickleAccepts(file, t, levels) ==      \* levels=TRUE: add_var(var, i) must agree with the receiver
   ~levels \/ \A i \in 1..Len(file.order) : LevelOf(t, file.order[i]) = i - 1
@@ -120,15 +136,18 @@ JsonNodes(file, t, todo, cache) ==     \* todo: file nodes in children-first ord
 RECURSIVE ReleaseAll(_, _)
 ReleaseAll(t, refs) == IF refs = {} THEN t
                        ELSE LET r == CHOOSE x \in refs : TRUE IN ReleaseAll([t EXCEPT !.ref = Decr(@, r)], refs \ {r})
-RECURSIVE TopoOrder(_, _, _)
-TopoOrder(file, done, acc) ==      \* children before parents
-  LET ready == {n \in DOMAIN file.succ \ ({1} \cup done) :
-                  /\ Abs(file.succ[n][2]) \in done \cup {1}
-                  /\ Abs(file.succ[n][3]) \in done \cup {1}}
-  IN IF ready = {} THEN acc
-     ELSE LET n == CHOOSE x \in ready : TRUE IN TopoOrder(file, done \cup {n}, Append(acc, n))
+(* the order of the lines of the file = the order in which dd._copy._dump_bdd
+   writes the nodes: depth first, low before high, a node after its children,
+   each node once; the loader creates the receiver's nodes in that order *)
+RECURSIVE PostOrder(_, _, _)
+PostOrder(file, u, acc) ==
+  LET n == Abs(u) IN
+  IF n = 1 \/ n \in SeqSet(acc) THEN acc
+  ELSE LET a1 == PostOrder(file, file.succ[n][2], acc)
+           a2 == PostOrder(file, file.succ[n][3], a1)
+       IN Append(a2, n)
 LoadJson(file, t, u) ==
-  LET todo == TopoOrder(file, {}, <<>>)
+  LET todo == PostOrder(file, u, <<>>)
       res == JsonNodes(file, t, todo, [x \in {} |-> 0])
       r == IF Abs(u) = 1 THEN u ELSE (IF u < 0 THEN -res.cache[-u] ELSE res.cache[u])
       held == [res.s EXCEPT !.ref = Incr(@, r)]                      \* the returned root is a live Function
